@@ -254,3 +254,18 @@ example : (Extracted.ResamplerLoops.resampleHelper (run C08_exCfg C08_exHist).bu
       1000000 2 1024 128 3000000 0).map (fun r => (r.2.1, r.2.2.map (·.map (·.id)))) = some (3000000, some [2]) := by
   decide +kernel
 
+/-- The result of the resampling function is a parameter of ANY type (floats with NaN and ±inf, optional values, …):
+the emitted value is `None` exactly when no sample is relevant, and otherwise it IS the function's result on the
+relevant samples — a NaN result is a value, not "no value". -/
+theorem C08_value_is_function_result {α : Type} (f : List Sample → α) (o : TickOut) :
+    (emittedAs f o = none ↔ o.rel = []) ∧ (∀ v, emittedAs f o = some v → o.rel ≠ [] ∧ v = f o.rel) := by
+  unfold emittedAs
+  cases h : o.rel with
+  | nil => simp
+  | cons a t => simp
+
+-- non-vacuity: a function that always returns "NaN" (here: `none : Option Rat` as a none-like RESULT) over a
+-- non-empty relevant set is emitted as `some none`, not as `none`
+example : emittedAs (fun _ => (none : Option Rat)) { rel := [⟨0, 0, false, false, true⟩], err := false } = some none := by
+  decide
+
